@@ -331,12 +331,33 @@ def Flags.gridFlags (f : Flags) (ndim : Nat) : Option (List (Bool × Bool)) :=
 
 def halfCount (bl br : Bool) : Rat := ((if bl then 1 else 0) + (if br then 1 else 0)) / 2
 
+/-- Extremal node of `uniform_grid_fromintv` on the left, per `(bdry_l, bdry_r)`. -/
+def gminOf (lo hi : Rat) (n : Nat) (bl br : Bool) : Rat :=
+  let N : Rat := n
+  if bl then lo else if br then lo + (hi - lo) / (2 * N - 1) else lo + (hi - lo) / (2 * N)
+
+/-- Extremal node of `uniform_grid_fromintv` on the right. -/
+def gmaxOf (lo hi : Rat) (n : Nat) (bl br : Bool) : Rat :=
+  let N : Rat := n
+  if br then hi else if bl then hi - (hi - lo) / (2 * N - 1) else hi - (hi - lo) / (2 * N)
+
+/-- Shape of one entry of the node-placement table as the translator reads it from the source
+(`Gen/UniformGrid.lean`): `base + sign * (xmax - xmin) / (a * n + b)`. -/
+structure Off where
+  baseMax : Bool
+  sign : Int
+  a : Int
+  b : Int
+
+def Off.eval (o : Off) (lo hi : Rat) (n : Nat) : Rat :=
+  (if o.baseMax then hi else lo) + (o.sign : Rat) * (hi - lo) / ((o.a : Rat) * (n : Rat) + (o.b : Rat))
+
 /-- One axis of `uniform_grid_fromintv` + `np.linspace(gmin, gmax, n)` +
 `RectPartition(intv_prod, grid)`. -/
 def uniformAxis (lo hi : Rat) (n : Nat) (bl br : Bool) : Part1 :=
   let N : Rat := n
-  let gmin := if bl then lo else if br then lo + (hi - lo) / (2 * N - 1) else lo + (hi - lo) / (2 * N)
-  let gmax := if br then hi else if bl then hi - (hi - lo) / (2 * N - 1) else hi - (hi - lo) / (2 * N)
+  let gmin := gminOf lo hi n bl br
+  let gmax := gmaxOf lo hi n bl br
   let step := (gmax - gmin) / (N - 1)
   ⟨n, fun i => if n ≤ 1 then gmin else gmin + (i : Rat) * step, lo, hi⟩
 
